@@ -283,3 +283,16 @@ def gen_patch():
 
 
 GENERATORS['nbdime.patching.patch'] = gen_patch
+
+
+def gen_diff():
+    "pairs of typed values of one container type (lists, dicts, strings, nested), default DiffConfig"
+    from nbdime.diffing.config import DiffConfig
+    vals = [[], [0], [0, 1], [1, 0, 2], [[0], {'a': 0}], [{'a': 0}, {'a': 1}], {}, {'a': 0}, {'a': [0], 'b': 'x\n'}, {'a': {'k': 1}},
+            {'b': 'x\ny\n', 'c': None}, '', 'x\ny\n', 'x\nz', 'x\r\ny']
+    for a in vals:
+        for b in vals:
+            yield [copy.deepcopy(a), copy.deepcopy(b), '', DiffConfig()]
+
+
+GENERATORS['nbdime.diffing.generic.diff'] = gen_diff
